@@ -31,7 +31,7 @@ RULE = ("one run = 1-3 PV meters with 1-2 inverters each (optionally one bare in
 QUICK_RUNS = 4000
 THOROUGH_RUNS = 250_000
 EXPECT_PROBES = ["primary_lagging", "transient_primary_error", "grid_formula_variant", "battery_formula_variant", "fallback_started", "fallback_lagging", "primary_recovered", "fallback_before_primary", "primary_closed",
-                 "producer_formula_variant", "grid_reactive_formula_variant", "consumer_formula_variant"]
+                 "producer_formula_variant", "grid_reactive_formula_variant", "consumer_formula_variant", "transient_error_while_fallback_in_step"]
 
 
 TAIL = 6
@@ -266,7 +266,7 @@ def scenario(sim: Sim, timeline_only: bool = False) -> None:
     if timeline_only:
         _oracle_timeline(sim, terms, bare, rounds, delivered, out, minuend)
         return
-    _oracle(sim, terms, bare, rounds, delivered, first_index, out, close, transient, minuend)
+    _oracle(sim, terms, bare, rounds, delivered, first_index, out, close, transient, minuend, lag)
 
 
 def _faulty_registry(faulty_keys: set[tuple[str, Any]]) -> Any:
@@ -315,7 +315,8 @@ def _valid(x: float | None) -> bool:
 
 def _oracle(sim: Sim, terms: list[dict[str, Any]], bare: bool, rounds: int, delivered: dict[tuple[int, int], float | None],
             first_index: dict[int, int], out: list[tuple[int, float | None, bool]], close: tuple[int, int] | None,
-            transient: set[tuple[int, int]], minuend: int | None = None) -> None:
+            transient: set[tuple[int, int]], minuend: int | None = None, lags: dict[int, int] | None = None) -> None:
+    lags = lags or {}
     if any(not _valid(delivered.get((t["primary"], k))) for t in terms for k in range(rounds)):
         sim.nontrivial = True
     # per term: T0 (first invalid primary round) and T_f (first index present on all fallback streams)
@@ -333,7 +334,7 @@ def _oracle(sim: Sim, terms: list[dict[str, Any]], bare: bool, rounds: int, deli
             # TAIL fault-free rounds follow the judged ones, so a fallback started by any judged failure
             # must have subscribed and received data by the end of the run (bounded start-up)
             exact_from[p] = rounds + 10
-            sim.soft_violation("fallback_started", {"history": "after_transient_error" if any(c == p for c, _ in transient)
+            sim.soft_violation("fallback_started", {"history": "after_transient_error:lagging_or_not_in_step" if any(c == p for c, _ in transient)
                                                     else ("after_close" if close and close[0] == p else "no_close")},
                                f"primary {p} invalid from T={t0} but fallback components "
                                f"{[i for i in t['fallback'] if i not in first_index]} were never subscribed "
@@ -347,13 +348,22 @@ def _oracle(sim: Sim, terms: list[dict[str, Any]], bare: bool, rounds: int, deli
     # after the error the formula is aligned again.  Only that neighbourhood is attributed to it, so that anything
     # going wrong later (e.g. "never returns to the primary") is still reported.
     transient_rounds = sorted(k for _, k in transient)
+    # ... and only under the conditions it needs: the formula running behind the fallback stream (some stream
+    # delivered late) or the error arriving before the term's fallback has been started and is in step.  An error on
+    # a primary whose fallback has been running in step for a while, with nothing delivered late, is handled
+    # correctly by the pinned tree - there, a wrong or missing sample is a violation like any other.
+    nolag = not any(lagv for lagv in lags.values())
+    synced = all(t0s.get(p_) is not None and t0s[p_] <= e_ - 4 for p_, e_ in transient)  # type: ignore[operator]
+    transient_cond = "fallback_in_step" if (nolag and synced) else "lagging_or_not_in_step"
+    if transient and transient_cond == "fallback_in_step":
+        sim.probe("transient_error_while_fallback_in_step")
 
     def phase_of(k: int, after_close: bool | None) -> str:
         """Which history a finding belongs to: only what happens after a primary stream was closed is
         attributed to the close (everything emitted before it is an ordinary close-free history); likewise
         for timestamps from the first injected transient receive error on."""
         if any(e <= k <= e + TRANSIENT_WINDOW for e in transient_rounds):
-            return "after_transient_error"
+            return "after_transient_error:" + transient_cond
         if closed_from is None:
             return "no_close"
         if after_close is None:  # a missing output
